@@ -2,7 +2,9 @@
 
 MODULES = {
     "C01": ["contracts.c01_grid"],
+    "C02": ["contracts.c02_itk"],
     "C08": ["contracts.c08_linalg"],
+    "C15": ["contracts.c08_linalg"],
 }
 
 # evidence level per property ("proof" = the deciding part is discharged obligations)
